@@ -85,6 +85,8 @@ def exc_class_of(expr: Optional[ast.AST]) -> Optional[str]:
     """Class name of `raise X(...)` / `raise X` / `raise mod.X(...)`; None if unknown (e.g. re-raise of a variable)."""
     if expr is None:
         return None
+    if getattr(expr, "_exc_class", None):
+        return expr._exc_class  # a name bound once to an error object in this function (annotated by pv.loader)
     called = isinstance(expr, ast.Call)
     if called:
         expr = expr.func
